@@ -186,8 +186,12 @@ pub(crate) fn remove_lifetimes_from_type(ty: &Type) -> Type {
 /// Check if a type is Option<T>.
 /// Handles Option, std::option::Option, and core::option::Option.
 pub(crate) fn is_option_type(ty: &Type) -> bool {
-    let Type::Path(type_path) = ty else {
-        return false;
+    let type_path = match ty {
+        Type::Path(type_path) => type_path,
+        // `(Option<T>)` and a type that came through a macro fragment are the same type.
+        Type::Paren(type_paren) => return is_option_type(&type_paren.elem),
+        Type::Group(type_group) => return is_option_type(&type_group.elem),
+        _ => return false,
     };
 
     let path = &type_path.path;
@@ -276,6 +280,16 @@ pub(crate) fn convert_type_lifetimes(ty: &Type, target_lifetime: &str) -> Type {
                 paren_token: type_tuple.paren_token,
                 elems,
             })
+        }
+        Type::Group(type_group) => {
+            let mut new_type_group = type_group.clone();
+            new_type_group.elem = Box::new(convert_type_lifetimes(&type_group.elem, target_lifetime));
+            Type::Group(new_type_group)
+        }
+        Type::Paren(type_paren) => {
+            let mut new_type_paren = type_paren.clone();
+            new_type_paren.elem = Box::new(convert_type_lifetimes(&type_paren.elem, target_lifetime));
+            Type::Paren(new_type_paren)
         }
         _ => ty.clone(),
     }
